@@ -575,21 +575,91 @@ def r01_11(duke, R, S):
                             kok = len(cnt) == 1
                     R.inst("R01.11", key, ok and dname == ft["data"] and dok and kok, sp=arm["sp"],
                            expect="(%s, %s%s)" % (ft["delta"], ft["data"], (", k=" + ft["k"]) if ft.get("k") else ""), got=T.show(res)[:90])
-    # stack map offsets: offset += delta + (if i == 0 {0} else {1})
+    # stack map offsets (JVMS 4.7.4): offset(frame 0) = offset_delta, offset(frame i) = offset(frame i-1) + offset_delta + 1.
+    # Shape-independent: in the `for` loop that calls read_stack_map_frame, the value stored into the accumulator (the local handed to
+    # labels.get_or_create) is a sum whose summands are exactly {accumulator, offset_delta, (if <loop index> == 0 {0} else {1})};
+    # `+`, `+=`, checked_add/and_then/`?`/context are all read as addition.
     rc = duke.fn("read_code")
     if rc:
-        incs = [n for n in H.walk(rc["body"]) if n.get("k") == "assignop" and n["op"] in ("+", "+=") and H.local_of(n["l"]) and H.local_of(n["l"])[1] == "offset"]
+        loops = [n for n in H.walk(rc["body"]) if n.get("k") == "for" and any(H.is_call(x, "read_stack_map_frame") for x in H.walk(n["body"], into_closures=False))]
+        # innermost only (the attribute-dispatch loop encloses the frame loop)
+        loops = [n for n in loops if not any(m is not n and any(y is m for y in H.walk(n["body"])) for m in loops)]
         ok = False
-        if len(incs) == 1:
-            r = H.peel(incs[0]["r"], refs=False)
-            if r.get("k") == "bin" and r["op"] == "+":
-                iff = next((x for x in (H.peel(r["l"], refs=False), H.peel(r["r"], refs=False)) if x.get("k") == "if"), None)
-                if iff is not None and "else" in iff:
-                    c = H.peel(iff["cond"], refs=False)
-                    first = c.get("k") == "bin" and c["op"] == "==" and H.const_value(c["r"]) == 0
-                    ok = first and H.const_value(_tail(iff["then"])) == 0 and H.const_value(_tail(iff["else"])) == 1
-        R.inst("R01.11", "frame-offset-accumulation", ok, sp=incs[0]["sp"] if incs else rc["sp"],
-               expect="offset += offset_delta + (if first {0} else {1})  (JVMS 4.7.4)")
+        got = None
+        sp = rc["sp"]
+        if len(loops) == 1:
+            lp = loops[0]
+            sp = lp["sp"]
+            idx = [i for i, _ in H.pat_bindings(lp["pat"])]
+            # accumulator: the local passed to get_or_create inside the loop
+            accs = set()
+            for x in H.walk(lp["body"], into_closures=False):
+                if H.is_call(x, "get_or_create") and x.get("k") == "mcall" and x["args"]:
+                    l = H.local_of(x["args"][0])
+                    if l:
+                        accs.add(l[0])
+            # offset_delta: first component of the tuple bound from read_stack_map_frame(..)?
+            deltas = set()
+            for x in H.walk(lp["body"], into_closures=False):
+                if x.get("k") == "let" and "init" in x and any(H.is_call(y, "read_stack_map_frame") for y in H.walk(x["init"])):
+                    pt = x["pat"]
+                    if pt.get("k") == "ptuple" and pt["pats"] and pt["pats"][0].get("k") == "bind":
+                        deltas.add(pt["pats"][0]["id"])
+
+            def summands(n, env):
+                n = H.peel(n, refs=False, tries=True)
+                k = n.get("k")
+                if k == "bin" and n["op"] == "+":
+                    return summands(n["l"], env) + summands(n["r"], env)
+                if k == "mcall" and n["name"] in ("checked_add", "wrapping_add", "saturating_add"):
+                    return summands(n["recv"], env) + summands(n["args"][0], env)
+                if k == "mcall" and n["name"] in ("and_then", "map") and n["args"] and H.peel(n["args"][0]).get("k") == "closure":
+                    c = H.peel(n["args"][0])
+                    e2 = dict(env)
+                    ps = H.pat_bindings(c["params"][0]) if c["params"] else []
+                    if len(ps) == 1:
+                        e2[ps[0][0]] = summands(n["recv"], env)
+                    return summands(c["body"], e2)
+                if k == "mcall" and n["name"] in ("context", "with_context", "ok_or", "ok_or_else", "ok", "into", "unwrap_or_default"):
+                    return summands(n["recv"], env)
+                if k == "call" and H.ctor_of(n) and H.ctor_of(n)[1] in ("Some", "Ok") and len(n["args"]) == 1:
+                    return summands(n["args"][0], env)
+                if k == "block" and not n["stmts"] and "tail" in n:
+                    return summands(n["tail"], env)
+                if k == "cast":
+                    return summands(n["e"], env)
+                l = H.local_of(n)
+                if l:
+                    if l[0] in env:
+                        return env[l[0]]
+                    return [("local", l[0])]
+                if k == "if" and "else" in n:
+                    c = H.peel(n["cond"], refs=False)
+                    if c.get("k") == "bin" and c["op"] in ("==", "!=") and H.const_value(c["r"]) == 0 and H.local_of(c["l"]):
+                        tv, ev_ = H.const_value(_tail(n["then"])), H.const_value(_tail(n["else"]))
+                        if c["op"] == "!=":
+                            tv, ev_ = ev_, tv
+                        return [("first?", H.local_of(c["l"])[0], tv, ev_)]
+                return [("other", H.render(n)[:40])]
+            stores = []
+            for x in H.walk(lp["body"], into_closures=False):
+                if x.get("k") in ("assign", "assignop") and H.local_of(x["l"]) and H.local_of(x["l"])[0] in accs:
+                    t = summands(x["r"], {})
+                    if x["k"] == "assignop" and x["op"] in ("+", "+="):
+                        t = [("local", H.local_of(x["l"])[0])] + t
+                    elif x["k"] == "assignop":
+                        t = [("other", "op " + x["op"])]
+                    stores.append((x, t))
+            if len(stores) == 1 and len(accs) == 1 and len(deltas) == 1 and len(idx) == 1:
+                acc, delta, i = next(iter(accs)), next(iter(deltas)), idx[0]
+                want = sorted([("local", acc), ("local", delta), ("first?", i, 0, 1)], key=repr)
+                got = sorted(stores[0][1], key=repr)
+                ok = got == want
+                sp = stores[0][0]["sp"]
+            else:
+                got = "accumulators=%d deltas=%d stores=%d loop-index=%d" % (len(accs), len(deltas), len(stores), len(idx))
+        R.inst("R01.11", "frame-offset-accumulation", ok, sp=sp, got=got,
+               expect="offset := offset + offset_delta + (0 for the first frame of the loop, else 1)  (JVMS 4.7.4)")
     # alignment
     al = duke.fn("align_to_4_byte_boundary", within="class_reader")
     if R.anchor("R01.11", "fn class_reader::align_to_4_byte_boundary", al):
